@@ -164,7 +164,8 @@ var features = []feature{
 		roots: []string{"dl$o", "lv$"}, plain: []string{"dl$o", "lv$"}},
 	{name: "hostcfg", code: 17,
 		setup: []string{`var hostMark$ = 0;`},
-		muts:  []string{`hostMark$++`, `debugger;`, `debugger; debugger;`, `hostMark$ = 'm'`, `dbgHits = 'reset'`},
+		muts:  []string{`hostMark$++`, `host:trace=2`, `host:trace=0`, `host:trace=14`, `host:depth=35`, `host:depth=80`, `host:random=0.75`, `host:debugger=off`, `debugger;`, `debugger; debugger;`, `hostMark$ = 'm'`, `dbgHits = 'reset'`},
+		both:  []string{`host:trace=4`, `debugger;`, `host:depth=40`, `host:random=0.125`, `hostMark$++`},
 		q:     []string{`hostEval('typeof hostMark$ + String(hostMark$)')`, `(typeof dbgHits) + ':' + (typeof dbgHits === 'undefined' ? '' : dbgHits)`, `Math.random() + ',' + Math.random()`, `(function d(n){ if (n > 150) return 'no limit'; try { return d(n + 1) } catch (e) { return n + e.name } })(0)`},
 		roots: []string{}, plain: []string{}},
 	// frozen / sealed / non-extensible holders made BEFORE Copy() whose members are accessors (getter only, setter only,
@@ -307,6 +308,12 @@ const qIntrinsics = `(function(g){ var gp = Object.getPrototypeOf, r = [];
   r.push([Object, Function, Array, String, Boolean, Number, Date, RegExp, Error, EvalError, TypeError, RangeError, ReferenceError, SyntaxError, URIError].map(function(C){ return (typeof C === 'function' && C.prototype && C.prototype.constructor === C && gp(C) === Function.prototype) ? 1 : 0 }).join(''));
   return r.join('') })(this)`
 
+// always-on: errors made at observation time (constructed, thrown, interpreter-raised) at depths below, at and
+// beyond the stack trace limit: the number of lines of e.stack shows the limit the runtime really has
+const qTrace = `(function(){ function mk(n){ return n ? mk(n - 1) : new Error('now') } function th(n){ if (n === 0) throw new TypeError('now'); th(n - 1) } function nul(n){ return n ? nul(n - 1) : null.x }
+  function lines(e){ return String(e.stack).split('\n').length } function caught(f, d){ try { f(d) } catch (e) { return lines(e) } return 'none' }
+  return [0, 1, 2, 3, 4, 9, 10, 11, 14, 24].map(function(d){ try { return lines(mk(d)) + '.' + caught(th, d) + '.' + caught(nul, d) } catch (e) { return 'E:' + e.name } }).join() })()`
+
 const qCaller = `String(cg$())`
 
 // ---------------------------------------------------------------- the dumper script
@@ -420,6 +427,7 @@ type entry struct {
 // one generator per scenario: its own PRNG (seeded from the run's PRNG) and its own output list, so that
 // scenarios can run on all cores and still come out in a deterministic order
 type gen struct {
+	cfg  *hostCfg // fixed host configuration of a pinned scenario
 	rng  *rand.Rand
 	tier string
 	outs []entry
@@ -478,13 +486,30 @@ func safeCopy(vm *otto.Otto) (c *otto.Otto, p interface{}) {
 	return vm.Copy(), nil
 }
 
-// runtime configuration that Copy() has to carry over (stack depth limit, random source, debugger
-// handler) and a Go function that evaluates a script in the runtime it is called from (call.Otto)
-func newVM(cfg bool) *otto.Otto {
+// Host configuration that Copy() has to carry over: stack trace limit, stack depth limit, random source, debugger
+// handler, and a Go function that evaluates a script in the runtime it is called from (call.Otto).  nil = everything
+// left at its default.  trace < 0 leaves the default trace limit in place.
+type hostCfg struct {
+	trace, depth int
+	rnd          float64
+}
+
+func (c *hostCfg) String() string {
+	if c == nil {
+		return "default"
+	}
+	return fmt.Sprintf("trace=%d depth=%d random=%v debugger hostEval", c.trace, c.depth, c.rnd)
+}
+
+func newVM(cfg *hostCfg) *otto.Otto {
 	vm := otto.New()
-	if cfg {
-		vm.SetStackDepthLimit(60)
-		vm.SetRandomSource(func() float64 { return 0.25 })
+	if cfg != nil {
+		if cfg.trace >= 0 {
+			vm.SetStackTraceLimit(cfg.trace)
+		}
+		vm.SetStackDepthLimit(cfg.depth)
+		rnd := cfg.rnd
+		vm.SetRandomSource(func() float64 { return rnd })
 		vm.SetDebuggerHandler(func(o *otto.Otto) {
 			_, _ = o.Run("dbgHits = (typeof dbgHits === 'number' ? dbgHits : 0) + 1")
 		})
@@ -499,10 +524,35 @@ func newVM(cfg bool) *otto.Otto {
 	return vm
 }
 
-func replay(log []string, cfg bool) *otto.Otto {
+// a step of a history: a script, or (prefix "host:") a call of the host API on that runtime
+func runStep(vm *otto.Otto, step string) {
+	if !strings.HasPrefix(step, "host:") {
+		RunJS(vm, step)
+		return
+	}
+	var n int
+	var f float64
+	switch {
+	case scan(step, "host:trace=%d", &n):
+		vm.SetStackTraceLimit(n)
+	case scan(step, "host:depth=%d", &n):
+		vm.SetStackDepthLimit(n)
+	case scan(step, "host:random=%g", &f):
+		vm.SetRandomSource(func() float64 { return f })
+	case step == "host:debugger=off":
+		vm.SetDebuggerHandler(nil)
+	}
+}
+
+func scan(s, format string, p interface{}) bool {
+	n, err := fmt.Sscanf(s, format, p)
+	return err == nil && n == 1
+}
+
+func replay(log []string, cfg *hostCfg) *otto.Otto {
 	vm := newVM(cfg)
 	for _, s := range log {
-		RunJS(vm, s)
+		runStep(vm, s)
 	}
 	return vm
 }
@@ -522,8 +572,9 @@ func (p picked) qexpr() string {
 
 func runC17(env *Env) {
 	env.Import = "Otto.C17.Corr"
-	env.Rule = "scenario = setup history H (2-6 feature instances out of 27 kinds (plus a pinned one that vandalises every global binding): closures sharing stashes, nested scopes, prototype chains, accessors, attributes and order, frozen/sealed, holders frozen/sealed/non-extensible before Copy() with getter-only/setter-only/both accessors over captured state (also behind a prototype, behind a closure, on a frozen array and function; every accessor run on copy and original in both orders), bound functions, arguments aliasing (every subset of indices unmapped before Copy(), more and fewer actuals than formals), global built-in bindings aliased / extended / deleted / rebound before Copy() with the global property order observed, errors made at recursion depth, modified built-ins, Date/RegExp/wrapper objects, arrays, with/catch/named-function scopes, cycles, sharing of one object of every class through several paths, global bindings, stateful getters, Error objects (constructed, thrown, interpreter-raised) whose message/name change after Copy() with stack/String/toString read on both sides, closures evaluating regexp/array/object/function literals, deletable/immutable scope bindings, host configuration (stack limit, random source, debugger handler, call.Otto), closures of functions with a parameter named arguments, global eval deleted / rebound to a primitive / to another function, functions inspecting f.caller (plain, bound, method, recursive, callback); run as separate programs and cross-linked), Copy(), then 2-7 rounds each mutating one runtime (original, copy, copy of copy, later copy) or taking a further copy; right after Copy() and in some rounds every parameterless script function of the heap is called (guarded) on a runtime and its replica and its result described (class, owning runtime, own properties); after every round every runtime is compared with its replica on all observation programs and on a script dump of its user heap; non-trivial = distinct scenario with at least one mutation round and at least 3 feature kinds, or a heap-dump case"
-	pinned := []feature{defArgParam, defEvalGone1, defEvalGone2, defEvalSwap, defCaller, featureByName("frozenacc"), featureByName("errors"), featureByName("literals"), featureByName("arguments"), featureByName("globals"), defGlobalsAll}
+	env.Rule = "scenario = setup history H (2-6 feature instances out of 27 kinds (plus a pinned one that vandalises every global binding): closures sharing stashes, nested scopes, prototype chains, accessors, attributes and order, frozen/sealed, holders frozen/sealed/non-extensible before Copy() with getter-only/setter-only/both accessors over captured state (also behind a prototype, behind a closure, on a frozen array and function; every accessor run on copy and original in both orders), bound functions, arguments aliasing (every subset of indices unmapped before Copy(), more and fewer actuals than formals), global built-in bindings aliased / extended / deleted / rebound before Copy() with the global property order observed, errors made at recursion depth, modified built-ins, Date/RegExp/wrapper objects, arrays, with/catch/named-function scopes, cycles, sharing of one object of every class through several paths, global bindings, stateful getters, Error objects (constructed, thrown, interpreter-raised) whose message/name change after Copy() with stack/String/toString read on both sides, closures evaluating regexp/array/object/function literals, deletable/immutable scope bindings, host configuration (stack trace limit, stack depth limit, random source, debugger handler, call.Otto: non-default values set before Copy(), changed through the host API on one runtime afterwards, observed through the stack of errors made at observation time at depths around the limit, recursion depth reached, Math.random, debugger hits), closures of functions with a parameter named arguments, global eval deleted / rebound to a primitive / to another function, functions inspecting f.caller (plain, bound, method, recursive, callback); run as separate programs and cross-linked), Copy(), then 2-7 rounds each mutating one runtime (original, copy, copy of copy, later copy) or taking a further copy; right after Copy() and in some rounds every parameterless script function of the heap is called (guarded) on a runtime and its replica and its result described (class, owning runtime, own properties); after every round every runtime is compared with its replica on all observation programs and on a script dump of its user heap; non-trivial = distinct scenario with at least one mutation round and at least 3 feature kinds, or a heap-dump case"
+	pinned := []feature{defArgParam, defEvalGone1, defEvalGone2, defEvalSwap, defCaller, featureByName("frozenacc"), featureByName("errors"), featureByName("literals"), featureByName("arguments"), featureByName("globals"), defGlobalsAll, featureByName("hostcfg"), featureByName("hostcfg"), featureByName("hostcfg"), featureByName("hostcfg")}
+	pinnedCfg := []*hostCfg{{trace: -1, depth: 60, rnd: 0.25}, {trace: 3, depth: 30, rnd: 0.5}, {trace: 0, depth: 100, rnd: 0}, {trace: 25, depth: 45, rnd: 0.999}}
 	const batch = 64
 	for base := 0; env.Count() < env.N; base += batch {
 		gens := make([]*gen, batch)
@@ -539,6 +590,9 @@ func runC17(env *Env) {
 				defect = &d
 			}
 			g := &gen{rng: rand.New(rand.NewSource(env.Rng.Int63())), tier: env.Tier}
+			if i < len(pinned) && pinned[i].code == 17 {
+				g.cfg = pinnedCfg[i%len(pinnedCfg)]
+			}
 			gens[k] = g
 			wg.Add(1)
 			go func() {
@@ -622,7 +676,9 @@ func (g *gen) scenario(defect *feature, serial int) {
 		}
 	}
 	for i := r.Intn(4); i > 0 && len(allMuts) > 0; i-- {
-		H = append(H, Pick(r, allMuts))
+		if m := Pick(r, allMuts); !strings.HasPrefix(m, "host:") { // host API calls are steps of their own, after Copy()
+			H = append(H, m)
+		}
 	}
 	if defect != nil {
 		for _, s := range defect.setup {
@@ -647,6 +703,7 @@ func (g *gen) scenario(defect *feature, serial int) {
 	if !evalTouched(hist) {
 		Q += " + '#' + " + qIntrinsics
 	}
+	Q += " + '#' + " + qTrace
 	rootsJS, _ := json.Marshal(rootNames)
 	QD := "__dump(" + string(rootsJS) + ")"
 
@@ -683,16 +740,20 @@ func (g *gen) scenario(defect *feature, serial int) {
 		obs = append(obs, fmt.Sprintf("(%d, 3, %s, %s)", s.id, cobs(a), cobs(b)))
 	}
 
-	cfg := false
+	var cfg *hostCfg
 	for _, h := range hist {
 		if h == 17 {
-			cfg = true
+			cfg = g.cfg
+			if cfg == nil {
+				cfg = &hostCfg{trace: Pick(r, []int{-1, 0, 1, 3, 10, 11, 25}), depth: Pick(r, []int{30, 45, 60, 100}), rnd: Pick(r, []float64{0, 0.25, 0.5, 0.999})}
+			}
 		}
 	}
+	fmt.Fprintf(&text, " ; host=%s", cfg)
 	// ---- original and its replica
 	a := &side{vm: newVM(cfg), id: 0}
 	for _, s := range H {
-		RunJS(a.vm, s)
+		runStep(a.vm, s)
 	}
 	a.log = append([]string{}, H...)
 	a.rep = replay(a.log, cfg)
@@ -776,8 +837,8 @@ func (g *gen) scenario(defect *feature, serial int) {
 					continue
 				}
 				m := Pick(r, allMuts)
-				if r.Intn(3) == 0 {
-					m = m + "; " + Pick(r, allMuts)
+				if m2 := Pick(r, allMuts); r.Intn(3) == 0 && !strings.HasPrefix(m, "host:") && !strings.HasPrefix(m2, "host:") {
+					m = m + "; " + m2
 				}
 				g.apply(x, m, &text)
 				nm++
@@ -826,8 +887,8 @@ func (g *gen) applyObserved(x *side, m string, q int, text *strings.Builder, obs
 }
 
 func (g *gen) apply(x *side, m string, text *strings.Builder) {
-	RunJS(x.vm, m)
-	RunJS(x.rep, m)
+	runStep(x.vm, m)
+	runStep(x.rep, m)
 	x.log = append(x.log, m)
 	fmt.Fprintf(text, " ; side%d: %s", x.id, m)
 }
